@@ -24,7 +24,10 @@ META = {
             "from_file_pos / file_for_uri result as the file the analysis was asked about; to_location and to_workspace_edit look the map up by the "
             "file id that accompanies the range. "
             "U7 (= C13/D1, D2) the store writes a text and its line map together, from one normalisation, and every change of a notification is "
-            "converted with the line map of the text it applies to.",
+            "converted with the line map of the text it applies to. "
+            "U8 a lone CR is a line end for the store as it is for the client, and a byte-order mark never reaches the text positions are counted in. "
+            "U10 in crate glas a byte offset is made only by LineMap::pos_for_line_col and the reviewed makers (no TextSize from a column, no arithmetic on offsets elsewhere). "
+            "U9 the initialize response announces no position encoding that depends on what the client listed (UTF-16 is the only unit implemented).",
     "explanation": "Decides the clauses of C14 whose truth is in the shape of the code; each is a necessary condition (breaking it shifts or "
                    "mislabels positions behind a non-ASCII character, on another line, or in another file). That the two scans are inverse to "
                    "each other and strictly monotone for every text is arithmetic over runtime strings and is NOT decided: a slip that keeps "
@@ -836,6 +839,41 @@ def line_ends_and_bom(F, res, rule="U8"):
                 lone = True
     res.ob(rule, "normalize/lone-cr-is-a-line-end", "a lone `\\r` ends a line for the server as it does for the client (normalize turns it into `\\n`)",
            lone, where=nm.loc(), how="replace('\\r', \"\\n\") found: %s" % lone)
+    # (c) nothing else leaves the client's text: every other character is one the client counts in its columns
+    CUTS = ("drain", "remove", "truncate", "pop", "trim", "trim_start", "trim_end", "trim_matches", "trim_start_matches", "trim_end_matches",
+            "strip_prefix", "strip_suffix", "split_off", "replace_range", "clear", "retain", "replace", "replacen")
+    cuts = []
+    for q in F.with_helpers(nm.path, depth=1, stop=["glas::vfs::LineMap::normalize::"]) if hasattr(F, "with_helpers") else [nm.path]:
+        g = F.fns[q]
+        if not g.blocks or not q.startswith("glas::"):
+            continue
+        dg = FL.Defs(g)
+        for b, t in g.calls():
+            c = FL.short(callee(t) or callee_def(t) or "")
+            last = c.rsplit("::", 1)[-1]
+            if last not in CUTS or not ("String" in c or "str" in c.split("::")[0] or c.startswith("str::") or "alloc::str" in (callee(t) or "")):
+                continue
+            vals = []
+            for a in t["args"]:
+                k = a.get("k") if isinstance(a, dict) else None
+                if not isinstance(k, dict):
+                    o = dg.origin_op(a) if isinstance(a, dict) else {}
+                    k = o.get("c") if o.get("k") == "const" else None
+                if isinstance(k, dict) and "str" in k:
+                    vals.append(k["str"])
+                if isinstance(k, dict) and k.get("ty") == "char" and "bits" in k:
+                    vals.append(chr(int(k["bits"])))
+            line_end = last in ("replace", "replacen") and vals and vals[0] in ("\r", "\r\n") and all(v in ("\r", "\r\n", "\n") for v in vals)
+            if last == "retain":
+                # the old form: retain(|c| c != '\r')
+                cl = [F.fns[x] for x in F.closures_of(q)]
+                line_end = any(any(isinstance(o_.get("k"), dict) and o_["k"].get("ty") == "char" and str(o_["k"].get("bits")) == "13" for o_ in FA.all_operands(cf))
+                               for cf in cl) if hasattr(FA, "all_operands") else False
+            if not line_end:
+                cuts.append("%s at %s" % (c, g.loc(t["ln"])))
+    res.ob(rule, "normalize/only-line-ends-leave", "normalize takes nothing out of a text but the carriage returns of its line ends: any other character (a "
+           "U+FEFF the client sent included) is counted by the client and must stay", not cuts, where=nm.loc(),
+           how="removing calls besides the line-end replacement: %s" % (cuts or "none"))
     rs = [f for p, f in F.fns.items() if p.startswith("glas::server::") and f.blocks and "{closure" not in p and
           any((callee(t) or callee_def(t) or "").endswith("read_to_string") for b, t in f.calls())]
     bom = []
@@ -851,6 +889,70 @@ def line_ends_and_bom(F, res, rule="U8"):
            where=rs[0].loc() if rs else "crates/glas/src/server.rs", how="readers: %s" % bom)
 
 
+def one_position_encoding(F, res, rule="U9"):
+    """U9: LineMap and convert count Position.character in UTF-16 code units, the unit LSP prescribes when nothing else was
+    agreed. The initialize response therefore never announces another unit: ServerCapabilities.position_encoding is left at its
+    default (None = UTF-16) or set to a value that depends on nothing the client sent. An encoding picked from the client's
+    general.positionEncodings list makes a conforming client count in a unit the server does not implement."""
+    n = 0
+    for p, f in sorted(F.fns.items()):
+        if not p.startswith(("glas::", "<glas::")) or not f.blocks:
+            continue
+        d = None
+        for b, i, s in f.stmts():
+            rv = s.get("rv") or {}
+            if rv.get("k") != "agg" or not (rv.get("adt") or "").endswith("::ServerCapabilities") or "position_encoding" not in (rv.get("fields") or []):
+                continue
+            d = d or FL.Defs(f)
+            n += 1
+            dep = FL.depends(F, f, d, rv["ops"][rv["fields"].index("position_encoding")], use_bb=b)
+            other = sorted(x for x in dep["strs"] if x.lower() in ("utf-8", "utf-32"))
+            ok = not dep["args"] and not other
+            res.ob(rule, "position-encoding/%s" % FL.short(p), "the position encoding announced to the client is UTF-16 (or none, which means UTF-16), whatever the "
+                   "client listed: it is the only unit the line map counts in", ok, where=f.loc(s.get("ln")),
+                   how="depends on parameters: %s; calls: %s; other encodings named: %s" % (sorted(dep["args"]), sorted(dep["calls"])[:6], other))
+    res.floor("places that build the ServerCapabilities", n, 1)
+
+
+# who may make a text offset in crate glas: function -> {constructor: reason}
+OFFSET_MAKERS = {
+    "glas::vfs::LineMap::pos_for_line_col": {"Into::into": "the one place a (line, UTF-16 column) becomes a byte offset: line start + column + the widths recorded before it"},
+    "glas::convert::from_range": {"TextRange::new": "pairs the two offsets from_pos returned for the start and the end of one lsp Range"},
+    "glas::vfs::Vfs::change_file_content": {"TextSize::of": "the length of the text being edited (bound for the range test)"},
+}
+OFFSET_GETTERS = ("TextRange::start", "TextRange::end", "TextRange::len", "LineMap::pos_for_line_col", "convert::from_pos", "convert::from_range",
+                  "Clone::clone", "Option::<T>::unwrap_or", "Ord::min", "Ord::max", "Option::<T>::unwrap_or_default")
+
+
+def offsets_have_one_maker(F, res, rule="U10"):
+    """U10: a byte offset is not a column. In crate glas a TextSize / TextRange comes out of LineMap::pos_for_line_col (which adds
+    the widths of the characters before the column), out of a range the analysis returned, or out of one of the reviewed
+    makers; nowhere else is one built from numbers or moved by arithmetic. `line_start + TextSize::from(column)` is the end of
+    the line only when the line is ASCII."""
+    import re as _re
+    n, m = 0, 0
+    for p, f in sorted(F.fns.items()):
+        if not p.startswith(("glas::", "<glas::")) or not f.blocks or "::tests" in p:
+            continue
+        seen = {}
+        for b, t in f.calls():
+            c = callee(t) or callee_def(t) or ""
+            if not _re.search(r"^text_size::(size::TextSize|range::TextRange)$", t.get("dty") or ""):
+                continue
+            sc = FL.short(c)
+            if sc in OFFSET_GETTERS:
+                m += 1
+                continue
+            n += 1
+            k = seen[sc] = seen.get(sc, -1) + 1
+            why = OFFSET_MAKERS.get(p, {}).get(sc)
+            res.ob(rule, "offset-maker/%s/%s/%d" % (FL.short(p), sc, k), "this text offset is made by the line map from (line, column), or is a reviewed bound",
+                   why is not None, where=f.loc(t["ln"]), how=("reviewed: " + why) if why else "a TextSize/TextRange is built or moved here, outside the line map "
+                   "and the reviewed makers: an offset computed from a column is wrong behind the first non-ASCII character", reviewed=why is not None)
+    res.floor("makers of text offsets in crate glas (positive control)", n, 3)
+    res.analysed["offset_reads_in_glas"] = m
+
+
 def run(F, res, tier):
     width_table(F, res)
     line_ends_and_bom(F, res)
@@ -860,6 +962,8 @@ def run(F, res, tier):
     lines(F, res)
     positions(F, res)
     same_file(F, res)
+    one_position_encoding(F, res)
+    offsets_have_one_maker(F, res)
     # the line map a conversion uses is the line map of the text it converts for: stored together with it (C13/D1) and re-read
     # after every change of one notification (C13/D2)
     _c13.text_and_line_map_written_together(F, res, rule="U7")
